@@ -8,7 +8,7 @@ import time
 
 sys.path.insert(0, os.path.dirname(os.path.abspath(__file__)))
 import vlib
-from engines import hs_server, hs_client, tcp_stream, codec
+from engines import hs_server, hs_client, tcp_stream, codec, pending
 
 # property -> list of (engine module, operator prefixes that decide it)
 PROPS = {
@@ -22,11 +22,17 @@ PROPS = {
     "C01": [(codec.C01, ["C01_", "X_Harness"])],
     "C02": [(codec.C02, ["C02_", "X_Harness"])],
     "C11": [(codec.C11, ["C11_", "X_Harness"])],
+    "C05": [(pending, ["C05_"])],
     "C12": [(tcp_stream.C12, ["C12_"])],
     "C16": [(tcp_stream.C16, ["C16_"])],
 }
 
 ASSUME = {
+    "pending": [
+        "TLC explores every interleaving of the lock regions for the stated instance (2-3 callers, two sharing an id, 2 responses incl. unknown ids, one cancellable caller); schedules in which both arms of the select are ready are left to the free runs",
+        "the gates sit between the lock regions (outside the locks), so a forced schedule is an execution the Go scheduler could produce by itself",
+        "TLC, CommunityModules Json and the Go runtime are trusted",
+    ],
     "codec": [
         "TLC enumerates the abstract domain of Codec.tla completely (field presence, document nesting, enum members, deviations, text forms over a 4-symbol alphabet); string payloads come from a seeded pool and are sampled, not enumerated",
         "equality of envelopes is judged by an independent field-by-field projection, not by the library's own marshalling",
